@@ -36,7 +36,7 @@ def task_names(tier):
                 continue
             names.append('redump/json/%s/%s' % (ver, k))
     names.append('nozone')
-    names += ['versions/zinc', 'versions/json']
+    names += ['versions/zinc', 'versions/json', 'layout/zinc', 'layout/json']
     return names
 
 
@@ -44,6 +44,17 @@ def _run_task(name, tier):
     parts = name.split('/')
     if parts[0] == 'frame':
         r = C17.run_task(parts[1], tier)
+        r['task'] = name
+        return r
+    if parts[0] == 'layout':
+        # a parsed grid's rows hold their tags in the order of the document they came from (a JSON row object in any order): each writer must place
+        # every cell under its own column whatever the order of the row's keys - the grid-layout tasks of the writers (C04 / C06)
+        if parts[1] == 'zinc':
+            from props import C04
+            r = C04.run_task('grid', tier)
+        else:
+            from props import C06
+            r = C06.run_task('document', tier)
         r['task'] = name
         return r
     if parts[0] == 'versions':
